@@ -13,7 +13,23 @@ MW_KINDS = {"Identity", "Hadamard", "Rx180", "Rx90", "Rxm90", "Ry180", "Ry90", "
             "VirtualPhase", "Rphi90"}
 
 
+_TABLES = {}
+
+
+def set_tables(tables):
+    """Tables calibrated from the implementation (sim.lib.calibrate); kinds without an entry keep the documented ones."""
+    _TABLES.clear()
+    _TABLES.update({k: v for k, v in (tables or {}).items() if "error" not in v})
+
+
 def kind_channels(kind, q, chan=None):
+    t = _TABLES.get(kind)
+    if t is not None:
+        c = chan or t["default_chan"] or ALL
+        if t["multi"]:
+            per = [p[1] for p in t["pattern"] if p[0] == 0] or [ALL]
+            return [[x, (c if name == "PARAM" else name)] for x in q for name in per]
+        return [[q[p[0]], (c if p[1] == "PARAM" else p[1])] for p in t["pattern"]]
     c = chan or ALL
     if kind in ("SingleQubitOperation", "Reset", "DetectorOperation", "LogicalObservableOperation"):
         return [[q[0], ALL]]
@@ -39,6 +55,9 @@ def kind_channels(kind, q, chan=None):
 
 
 def kind_default_dur(kind):
+    t = _TABLES.get(kind)
+    if t is not None:
+        return tuple(t["dur"])
     if kind == "Reset":
         return ("global", "reset")
     if kind in MW_KINDS:
